@@ -6,6 +6,7 @@
  *   --prop C06  adaptive: auto + forced encodings lossless, header byte = reported type
  */
 #include "vh.h"
+#include <sys/mman.h>
 #include "vmalloc.h"
 
 #include "varint.h"
@@ -642,7 +643,23 @@ static void codec_dict(const uint64_t *vals, size_t n) {
             continue;
         }
         if (wrote == 0) {
-            AFAIL(eapi, "roundtrip_mismatch", "%s: encoder returned 0", cur_desc);
+            /* a reported refusal is legitimate only outside the format's domain: more distinct values than the
+             * decoders' documented dictionary cap (1,048,576 entries); then the size predictor must agree */
+            size_t distinct = 0;
+            if (n > 1048576) {
+                uint64_t *tmp = malloc(8 * n);
+                memcpy(tmp, vals, 8 * n);
+                qsort(tmp, n, 8, u64cmp_corpus);
+                for (size_t i = 0; i < n; i++) {
+                    distinct += i == 0 || tmp[i] != tmp[i - 1];
+                }
+                free(tmp);
+            }
+            if (distinct <= 1048576 || predicted != 0) {
+                AFAIL(eapi, "roundtrip_mismatch", "%s: encoder returned 0 (size predictor %zu, %zu distinct values)", cur_desc, predicted, distinct);
+            } else {
+                vh_count("dict_refusals_above_entry_cap", 1);
+            }
             continue;
         }
         check_bound(eapi, wrote, predicted, 1);
@@ -1328,6 +1345,97 @@ static void run_array(const uint64_t *v, size_t n) {
     }
 }
 
+/* ------------------------------------------------------------------ giant arrays
+ * Element counts above 2^20 (the dictionary decoders' entry cap, sampling paths for very long inputs) and around 2^24
+ * (a count / run length whose tagged form grows to 5 bytes).  The guard buffers are re-mapped at the size each array
+ * needs; everything else is the ordinary per-array pipeline. */
+static void giant_resize(size_t n) {
+    size_t want[5] = {20 * n + (1 << 16), 20 * n + (1 << 16), 8 * n + 4096, 8 * n + 4096, 1 << 16};
+    for (int sl = 0; sl < 5; sl++) {
+        if (vh_gb[sl].cap < want[sl] + VH_CANARY) {
+            munmap(vh_gb[sl].lead, vh_gb[sl].maplen);
+            vh_gb_init(sl, want[sl]);
+        }
+    }
+}
+static size_t giant_fill(int kind, uint64_t *v, char *desc, size_t cap) {
+    size_t n = 0;
+    switch (kind) {
+    case 0: /* clustered values with spikes; the single minimum sits at an odd index */
+        n = 1048577;
+        for (size_t i = 0; i < n; i++) {
+            v[i] = 1000 + (i * 37) % 100 + (i % 1000 == 999 ? 1000000 : 0);
+        }
+        v[777777] = 3;
+        snprintf(desc, cap, "n=%zu clustered 1000..1099 with a spike every 1000th, single minimum 3 at index 777777", n);
+        break;
+    case 1: /* one more distinct value than a dictionary decoder accepts */
+        n = 1048577;
+        for (size_t i = 0; i < n; i++) {
+            v[i] = i * 3 + 1;
+        }
+        snprintf(desc, cap, "n=%zu distinct ascending values (i*3+1)", n);
+        break;
+    case 2: /* what a stride-10 sample sees is constant, but almost every value is distinct */
+        n = 3000000;
+        for (size_t i = 0; i < n; i++) {
+            v[i] = i % 10 == 0 ? 7 : 100 + i;
+        }
+        snprintf(desc, cap, "n=%zu, every 10th element 7, the others 100+i", n);
+        break;
+    case 3:
+    case 4:
+    case 5: /* one run whose length crosses the 4-to-5-byte boundary of a tagged count */
+        n = 16777215 + (size_t)(kind - 3);
+        for (size_t i = 0; i < n; i++) {
+            v[i] = 300;
+        }
+        snprintf(desc, cap, "n=%zu equal values (300)", n);
+        break;
+    case 6: /* ascending by 1 at the same boundary */
+        n = 16777216;
+        for (size_t i = 0; i < n; i++) {
+            v[i] = 5 + i;
+        }
+        snprintf(desc, cap, "n=%zu ascending by 1 from 5", n);
+        break;
+    case 7: /* exactly the dictionary cap */
+        n = 1048576;
+        for (size_t i = 0; i < n; i++) {
+            v[i] = ((i * 2654435761ULL) % n) * 3 + 1; /* a permutation when n is a power of two and the multiplier odd */
+        }
+        snprintf(desc, cap, "n=%zu distinct scattered values", n);
+        break;
+    }
+    return n;
+}
+static void run_giant(void) {
+    if (M13 || !vh_section_begin("giant")) {
+        return;
+    }
+    /* the two arrays just above 2^20 everywhere; all eight where VERIF_GIANT is set (thorough tier, optimised builds) */
+    static const int QUICK[2] = {0, 1};
+    int all = vh_thorough && getenv("VERIF_GIANT") != NULL;
+    int nk = all ? 8 : 2;
+    for (int k = 0; k < nk; k++) {
+        if (!vh_case()) {
+            continue;
+        }
+        int kind = all ? k : QUICK[k];
+        static char gdesc[200];
+        uint64_t *v = malloc(8 * (size_t)16777300);
+        size_t n = giant_fill(kind, v, gdesc, sizeof gdesc);
+        giant_resize(n);
+        cur_desc = gdesc;
+        g_in_shift = 0;
+        run_array(v, n);
+        free(v);
+        vh_count("cases", 1);
+        vh_count("elements", n);
+        vh_count("arrays_giant", 1);
+    }
+}
+
 int main(int argc, char **argv) {
     vh_init(argc, argv);
     for (int i = 1; i < argc; i++) {
@@ -1395,6 +1503,7 @@ int main(int argc, char **argv) {
         vh_flag("corpus_complete", complete);
     }
     corpus_end(&it);
+    run_giant();
     if (M06) {
         adaptive_select_sweep();
         if (vh_thorough) {
